@@ -60,7 +60,7 @@ def r1_trace_states(ctx):
         # (a) items derive from the very table that is returned, through hash_row
         ib = slice_field_bases(s["items"])
         hashed = _items_hashed_by(ctx, f, s, (HASH_ROW,))
-        same_tbl = table_field in ib and table_field in ret_bases and (ib[table_field] & ret_bases[table_field])
+        same_tbl = table_field in ib and table_field in ret_bases and (_alias_roots(f, ib[table_field]) & _alias_roots(f, ret_bases[table_field]))
         ctx.ob("R1", "%s-items-from-returned-table" % nm, bool(same_tbl and hashed),
                "items argument = collect(map(%s.rows(), |row| hash_row(..))) over the same `%s` that is moved into the Ok payload"
                % (table_field, table_field) if same_tbl and hashed else
@@ -376,6 +376,36 @@ def loop_result_guard(f, L, call_bb):
         if f.can_reach(s, [L["header"]], cut_edges=pass_edges):
             return False, "an iteration can complete without passing the Ok edge of the check"
     return True, "checked on every iteration of the loop at %s; Err edge returns" % ir.line_of(f.term(L["header"])["sp"]["at"])
+
+
+def _alias_roots(f, locs):
+    """the locals a set of base locals stand for: references / copies / reborrows are followed back
+    (a spliced helper reads `(*queries).aux_states` through its own parameter)."""
+    out = set()
+    todo = list(locs)
+    seen = set()
+    while todo:
+        l = todo.pop()
+        if l in seen:
+            continue
+        seen.add(l)
+        ds = f.defs(l)
+        moved = False
+        if len(ds) == 1 and ds[0]["kind"] == "assign":
+            rv = ds[0]["rv"]
+            pl = None
+            if rv[0] == "use":
+                pl = op_place(rv[1])
+            elif rv[0] in ("ref", "rawptr"):
+                pl = rv[2]
+            elif rv[0] == "cast":
+                pl = op_place(rv[2])
+            if pl and all(e == "*" for e in pl[1:]):
+                todo.append(pl[0])
+                moved = True
+        if not moved:
+            out.add(l)
+    return out
 
 
 def loop_bool_guard(f, L, call_bb, is_call=True):
